@@ -19,25 +19,24 @@ pub(crate) fn impl_inverse_uint_scale(n: &BigUint, scale: i64, ctx: &Context) ->
     let mut running_result = next_iteration(guess);
     debug_assert!(!running_result.is_zero(), "Zero detected in inverse calculation of {}e{}", n, -scale);
 
-    let mut prev_result = BigDecimal::one();
-    let mut result = BigDecimal::zero();
+    let mut prev_running_result = BigDecimal::zero();
 
     // TODO: Prove that we don't need to arbitrarily limit iterations
     // and that convergence can be calculated
-    while prev_result != result {
-        // store current result to test for convergence
-        prev_result = result;
+    while prev_running_result != running_result {
+        // store current value to test for convergence
+        prev_running_result = running_result;
 
-        // calculate next iteration
-        running_result = next_iteration(running_result).with_prec(max_precision + 2);
-
-        // 'result' has clipped precision, 'running_result' has full precision
-        result = if running_result.digits() > max_precision {
-            running_result.with_precision_round(ctx.precision(), ctx.rounding_mode())
-        } else {
-            running_result.clone()
-        };
+        // calculate next iteration, clipped to the working precision
+        running_result = next_iteration(prev_running_result.clone()).with_prec(max_precision + 2);
     }
+
+    // 'result' has clipped precision, 'running_result' has full precision
+    let result = if running_result.digits() > max_precision {
+        running_result.with_precision_round(ctx.precision(), ctx.rounding_mode())
+    } else {
+        running_result
+    };
 
     return result;
 }
